@@ -35,6 +35,7 @@ class SetNode:
     rec: bool = False
     inline: bool = False
     trailing: list = field(default_factory=list)  # own-line comments before the closing brace
+    blank_before_close: bool = False  # a blank line in front of `}` / `in`
 
 
 @dataclass
@@ -64,7 +65,7 @@ def render_set(s: SetNode, ind: int, out: list, as_let: bool = False):
         out[-1] += head
     ip = " " * (ind + 2)
     for it in s.items:
-        if it.blank_before and out and out[-1].strip() not in ("{", "rec {", "let"):
+        if it.blank_before and out and not out[-1].rstrip().endswith(("{", "let")):
             out.append("")
         for c in it.before:
             out.append(ip + c)
@@ -84,6 +85,8 @@ def render_set(s: SetNode, ind: int, out: list, as_let: bool = False):
             out[-1] += " " + it.eol
     for c in s.trailing:
         out.append(ip + c)
+    if s.blank_before_close and s.items:
+        out.append("")
     if not as_let:
         out.append(pad + "}")
 
@@ -168,7 +171,7 @@ def render(doc: Doc) -> str:
 
 class DocGen:
     def __init__(self, seed: int, *, comments=True, wrappers=True, max_lets=3, attrpaths=True, nested=True, quoted=True, inherits=True, refs=False,
-                 nested_families=True, with_ident_env=True, lets_anywhere=True, let_before_call=True, trailing_comments=True, after_in_trivia=True, mixed_roots=True, aliases=True, alias_hops=True):
+                 nested_families=True, with_ident_env=True, lets_anywhere=True, let_before_call=True, trailing_comments=True, after_in_trivia=True, mixed_roots=True, aliases=True, alias_hops=True, blank_close=True):
         self.r = random.Random(seed)
         self.comments = comments
         self.wrappers = wrappers
@@ -187,6 +190,7 @@ class DocGen:
         self.mixed_roots = mixed_roots
         self.aliases = aliases
         self.alias_hops = alias_hops
+        self.blank_close = blank_close
         self.n = 0
         self._depth0 = True
 
@@ -266,6 +270,8 @@ class DocGen:
         s = SetNode(items, rec=(r.random() < 0.15))
         if self.comments and self.trailing_comments and items and r.random() < 0.08:
             s.trailing.append(self.comment())
+        if self.blank_close and items and not s.inline and r.random() < 0.05:
+            s.blank_before_close = True
         return s
 
     def with_env(self):
@@ -298,7 +304,7 @@ class DocGen:
                     it.before.append(self.comment())
                 if r.random() < 0.1:
                     it.eol = self.comment()
-        return SetNode(items)
+        return SetNode(items, blank_before_close=self.blank_close and r.random() < 0.05)
 
     def doc(self) -> Doc:
         r = self.r
